@@ -471,7 +471,8 @@ type pcase struct {
 // newline does not open another row.
 func idealRows(text string, w int) []string {
 	var rows []string
-	lines := strings.Split(text, "\n")
+	// CR LF is one line terminator (and one grapheme cluster)
+	lines := strings.Split(strings.ReplaceAll(text, "\r\n", "\n"), "\n")
 	if len(lines) > 0 && lines[len(lines)-1] == "" {
 		lines = lines[:len(lines)-1]
 	}
@@ -583,7 +584,7 @@ func runPager(w *harness.W, sess *vxh.Session, c pcase, sample bool) {
 	if !sameRows(gotT, wantT, c.W) {
 		kind := "pager:rows-differ"
 		joined := strings.Join(gotT, "")
-		flat := strings.ReplaceAll(text, "\n", "")
+		flat := strings.ReplaceAll(strings.ReplaceAll(text, "\r\n", ""), "\n", "")
 		switch {
 		case len(joined) < len(flat) && strings.HasPrefix(flat, joined):
 			kind = "pager:last-line-missing"
@@ -710,7 +711,7 @@ func (c check) Run(w *harness.W, b harness.Batch) {
 				runSimple(w, sess, genSimple(r), i == 0)
 			}
 		case "pager-exhaustive":
-			alpha := []string{"a", "\u4f60", "\n"}
+			alpha := []string{"a", "\u4f60", "\n", "\r\n"}
 			k := 0
 			for l := 0; l <= 6; l++ {
 				cnt := 1
@@ -739,7 +740,7 @@ func (c check) Run(w *harness.W, b harness.Batch) {
 				}
 			}
 		case "pager-random":
-			alpha := []string{"a", "b", "c", "d", "\u4f60", "\u597d", "\n", "\n", "e", "f"}
+			alpha := []string{"a", "b", "c", "d", "\u4f60", "\u597d", "\n", "\n", "e", "f", "\r\n"}
 			for i := 0; i < s.N; i++ {
 				pc := pcase{W: 2 + r.Intn(12), H: 1 + r.Intn(6)}
 				for sgi := 0; sgi < 1+r.Intn(3); sgi++ {
